@@ -1121,6 +1121,22 @@ impl<'a> Interp<'a> {
         r
     }
 
+    /// App::sudo(StakingSudo::Slash) with a fraction of 0 %, 100 % (whole-token arithmetic) or an
+    /// invalid one (> 100 %, unknown validator)
+    pub fn top_slash(&mut self, validator: &str, percent: u8) -> R<Resp> {
+        if !self.fx.validators.iter().any(|v| v == validator) || percent > 100 {
+            self.failures += 1;
+            return Err(());
+        }
+        if percent == 100 {
+            self.st.deleg.retain(|(_, v), _| v != validator);
+            for u in self.st.unbond.iter_mut().filter(|u| u.1 == validator) {
+                u.2 = 0;
+            }
+        }
+        Ok(Resp { events: vec![], data: None })
+    }
+
     pub fn top_mint(&mut self, to: &str, coins: &[Coin]) -> R<Resp> {
         if !Self::valid_addr(to) || self.bank_credit(to, coins).is_err() {
             self.failures += 1;
